@@ -79,6 +79,13 @@ def run(ctx):
     for n in range(nfree):
         procs = [[call(KINDS[(g + i + n) % 6], (g + i) % 5, "enc" if (g + i) % 2 else "dec", ENCS[(g + n) % 3], reuse=(i > 0))] for g in range(16) for i in range(1)]
         jobs.append({"id": "free-%d" % n, "job": {"mode": "free", "reps": 2, "procs": procs}})
+    # (d) warm caches, one structure, varying interface values: a plan is a function of the type only and is not modified by its use
+    VARIANTS = [["RespGet", "RespGetSecret", "RespGetOpaque"], ["ReqRegisterKey", "ReqRegisterCert"]]
+    nham = 2 if ctx.quick else 12
+    for n in range(nham):
+        fam = VARIANTS[n % 2]
+        procs = [[call(fam[(g + i) % len(fam)], (g + n) % 5, "enc", ENCS[n % 3]) for i in range(len(fam))] for g in range(8)]
+        jobs.append({"id": "warm-variants-%d" % n, "job": {"mode": "free", "reps": 150 if ctx.quick else 400, "procs": procs}})
     jpath = os.path.join(ctx.work, "jobs.ndjson")
     vlib.write_ndjson(jpath, jobs)
     results = []
